@@ -58,6 +58,38 @@ func runC03(c *Ctx) {
 	if sites.primary != nil {
 		packCall = sites.primary.call
 	}
+	// merged form: `maxSize := 65535; if FromUDP { maxSize = getValidUDPSize(opt) }; resp.Truncate(maxSize)` — one call
+	// whose size is a two-way choice on exactly "the query came over UDP"
+	var mergedUDPSize ssa.Value
+	if truncCall != nil && len(streamTruncs) == 0 {
+		if ph, ok := truncCall.Call.Args[1].(*ssa.Phi); ok && len(ph.Edges) == 2 {
+			var udpV ssa.Value
+			streamOK := false
+			for _, lf := range expandCases(ph, nil, 0) {
+				fromUDP, known, extra := false, false, false
+				for _, g := range lf.guards {
+					v, truth := g.asBool()
+					if k, _ := loadedField(v); strings.HasSuffix(k, ".QueryMeta.FromUDP") {
+						fromUDP, known = truth, true
+					} else if !g.Derived {
+						extra = true
+					}
+				}
+				if !known || extra {
+					udpV, streamOK = nil, false
+					break
+				}
+				if fromUDP {
+					udpV = lf.val
+				} else if n, isC := constInt(lf.val); isC && n == 65535 {
+					streamOK = true
+				}
+			}
+			if udpV != nil && streamOK {
+				mergedUDPSize = udpV
+			}
+		}
+	}
 
 	c.rule("R2", "the packed message is the plugins' response or SetReply(query) with SERVFAIL (error) / REFUSED (no answer)", 3)
 	checkSinglePackSite(c, h)
@@ -327,6 +359,9 @@ func runC03(c *Ctx) {
 				}
 				extra = guardText(g)
 			}
+			if mergedUDPSize != nil && extra == "" {
+				udp = true // the choice of the size is what is tied to FromUDP; the call itself runs for every reply
+			}
 			c.check(udp && extra == "" && truncCall.Call.Args[0] == resp, "truncate-iff-udp", instrPos(truncCall), "the packed reply is truncated exactly for UDP queries",
 				"truncation is not tied to exactly 'query arrived over UDP' (extra condition: "+extra+") or does not apply to the reply being packed: some UDP replies exceed the size the client advertised")
 			// stream transports (D34): plugins hand over unpacked, uncompressed messages; Truncate(maximum message size) is
@@ -335,7 +370,11 @@ func runC03(c *Ctx) {
 			{
 				good := len(streamTruncs) == 1
 				why := fmt.Sprintf("%d constant-size Truncate calls", len(streamTruncs))
-				if good {
+				if mergedUDPSize != nil {
+					_, packFirst2 := reachAvoiding(packCall, func(x ssa.Instruction) bool { return x == ssa.Instruction(truncCall) }, nil)
+					good = truncCall.Call.Args[0] == resp && !packFirst2
+					why = "merged Truncate call"
+				} else if good {
 					st := streamTruncs[0]
 					notUDP, extra2 := false, ""
 					for _, g := range guardsOfInstr(st) {
@@ -373,6 +412,9 @@ func runC03(c *Ctx) {
 			c.check(!packFirst, "truncate-before-pack", instrPos(packCall), "packing comes last", "the reply is packed before it is truncated")
 			// size from getValidUDPSize(ClientOpt()) within [512, 65535]
 			sz := truncCall.Call.Args[1]
+			if mergedUDPSize != nil {
+				sz = mergedUDPSize
+			}
 			if cl, ok := sz.(*ssa.Call); ok && callName(cl) == relHandler+".getValidUDPSize" {
 				argOK := false
 				if a, ok := cl.Call.Args[0].(*ssa.Call); ok && callName(a) == "(*"+relQctx+".Context).ClientOpt" && a.Call.Args[0] == ssa.Value(newCtx) {
@@ -841,6 +883,99 @@ func runC03R6(c *Ctx) {
 			c.check(restored, key, instrPos(in), "restored by a defer registered right after the change", "the query's "+fieldTail(k)+" is changed without a deferred restore: when the rest of the chain fails or panics the reply is built for the rewritten question")
 		})
 	}
+	// setter-helper form: `setQName(q, target); defer setQName(q, original)` — a NEW helper whose body stores its value
+	// parameter into the question / id of its message parameter
+	for _, h := range p.Funcs {
+		if !isNewHelper(h) || len(withAnon(h)) != 1 {
+			continue
+		}
+		mi, vi, k := -1, -1, ""
+		nStores := 0
+		eachInstr(h, func(in ssa.Instruction) {
+			st, ok := in.(*ssa.Store)
+			if !ok {
+				return
+			}
+			kk, ok := fieldKey(st.Addr)
+			if !ok || !(strings.HasPrefix(kk, "github.com/miekg/dns.Question.") || kk == "github.com/miekg/dns.MsgHdr.Id") {
+				return
+			}
+			nStores++
+			base := fieldBase(st.Addr)
+			for i := 0; i < 8; i++ {
+				switch x := base.(type) {
+				case *ssa.IndexAddr:
+					base = fieldBase(x.X)
+					continue
+				case *ssa.UnOp:
+					if x.Op == token.MUL {
+						if _, isFA := x.X.(*ssa.FieldAddr); isFA {
+							base = fieldBase(x.X)
+							continue
+						}
+					}
+				}
+				break
+			}
+			for i, prm := range h.Params {
+				if base == ssa.Value(prm) {
+					mi = i
+				}
+				if st.Val == ssa.Value(prm) {
+					vi = i
+				}
+			}
+			k = kk
+		})
+		if nStores != 1 || mi < 0 || vi < 0 {
+			continue
+		}
+		sites, asValue := callSitesOf(h)
+		if asValue {
+			continue
+		}
+		t4 := p.newTracer()
+		t4.throughCalls, t4.throughFields, t4.throughParams = false, false, false
+		for _, site := range sites {
+			ci := site.(ssa.CallInstruction)
+			if len(ci.Common().Args) <= mi || len(ci.Common().Args) <= vi {
+				continue
+			}
+			msg := ci.Common().Args[mi]
+			isQ := false
+			for _, r := range t4.origins(msg) {
+				if cl, ok := r.(*ssa.Call); ok && callName(cl) == "(*"+relQctx+".Context).Q" {
+					isQ = true
+				}
+			}
+			if !isQ {
+				continue
+			}
+			fn := site.Parent()
+			c.see(fn)
+			key := "query-write@" + funcName(fn) + ":" + fieldTail(k)
+			if _, isDefer := site.(*ssa.Defer); isDefer {
+				c.check(isSavedOriginal(p, ci.Common().Args[vi], k), key+":restore", instrPos(site), "the deferred restore writes back the value loaded before the change",
+					"the deferred restore writes "+exprStr(ci.Common().Args[vi])+", not the unmodified value that was loaded from the query before it was changed")
+				continue
+			}
+			restored := false
+			eachInstr(fn, func(x ssa.Instruction) {
+				d, ok := x.(*ssa.Defer)
+				if !ok || !instrDominates(site, x) || staticCallee(d) != h || d.Call.Args[mi] != msg {
+					return
+				}
+				if _, call := reachAvoiding(site, func(y ssa.Instruction) bool {
+					_, isCall := y.(*ssa.Call)
+					return isCall && y != x
+				}, func(y ssa.Instruction) bool { return y == x }); call {
+					return
+				}
+				restored = true
+			})
+			c.check(restored, key, instrPos(site), "restored by a deferred call of the same setter on the same message, registered right after the change", "the query's "+fieldTail(k)+" is changed without a deferred restore: when the rest of the chain fails or panics the reply is built for the rewritten question")
+		}
+	}
 }
 
 // guardText renders a guard position-independently (condition and truth).
@@ -979,6 +1114,21 @@ func checkIdentityWriters(c *Ctx) {
 			c.see(fw.Fn)
 			key := "identity-write@" + funcName(fw.Fn) + ":" + fieldTail(k)
 			why, known := identityWriters[funcName(fw.Fn)]
+			if !known && isNewHelper(fw.Fn) {
+				// a NEW helper that only the known writers call does their writing for them (the rules named there decide
+				// what is written: they look into such helpers)
+				sites, asValue := callSitesOf(fw.Fn)
+				all := !asValue && len(sites) > 0
+				for _, st := range sites {
+					par := st.Parent()
+					if _, ok := identityWriters[funcName(par)]; !ok {
+						all = false
+					}
+				}
+				if all {
+					known, why = true, "helper of a known writer"
+				}
+			}
 			c.check(known, key, instrPos(fw.Instr), why,
 				"writes the "+fieldTail(k)+" of a DNS message outside the known sites: a reply whose id or question was rewritten on the way out is not the reply to the client's query (if this is a new, correct writer it must be added to the table with the rule that decides it)")
 		}
